@@ -46,4 +46,8 @@ def aeadSendUseFirst : Bool := true
 /-- same for Packetizer.read_message: `engine.decrypt(self.__iv_in, …)` before the `__iv_in` step -/
 def aeadRecvUseFirst : Bool := true
 
+/-- AST of paramiko/*.py: `.session_id` is assigned only as `= None` in Transport.__init__ and as `= h` directly
+    under a top-level `if self.session_id is None:` in Transport._set_K_H -/
+def sessionIdGuarded : Bool := true
+
 end PV.Generated.C04
